@@ -92,6 +92,7 @@ static inline long myth_sleep_queue_enq(myth_sleep_queue_t * q,
     q->head = t;
   }
   q->tail = t;
+  MYTH_VERIF_POINT(MYTH_VP_SQ_ENQ, q, t, 0);
   myth_spin_unlock_body(q->ilock);
   return spin_failed;		/* done */
 }
@@ -106,6 +107,7 @@ static inline myth_sleep_queue_item_t myth_sleep_queue_deq(myth_sleep_queue_t * 
       q->tail = 0;
     }
   }
+  MYTH_VERIF_POINT(MYTH_VP_SQ_DEQ, q, head, 0);
   myth_spin_unlock_body(q->ilock);
   return head;		/* done */
 }
